@@ -9,11 +9,12 @@ def check_c15(ctx):
     core.build_vh(ctx)
     mc = core.model_check(ctx, "DataModel", "MCDataModel.cfg", timeout=1200)
     gen = core.generate(ctx, "FrontendGen", "GenTypes.cfg", num=300 if quick else 4000, depth=400, seed=ctx.seed * 100 + 15, timeout=2400)
-    scn = [{"id": i + 1, "decls": g["decls"], "seed": ctx.seed} for i, g in enumerate(gen)]
+    scn = [{"id": i + 1, "decls": g["decls"], "seed": ctx.seed, "mermaid": i % 3 == 0} for i, g in enumerate(gen)]
     events, _ = core.vh_sharded(ctx, "datamodel", scn, timeout=3000)
     prints, nev, _ = core.validate(ctx, "DataModelTrace", "DataModelTrace.cfg", events, chunk=40000)
     begins = {e["t"]: e for e in events if e["e"] == "begin"}
     diags = {e["t"]: e for e in events if e["e"] == "diagram"}
+    mermaids = {e["t"]: e for e in events if e["e"] == "mermaid"}
     by_id = {s["id"]: s for s in scn}
     for kind, p in prints:
         t = p["t"]
@@ -22,6 +23,14 @@ def check_c15(ctx):
             names = set(p["what"])
         elif kind == "REJECT":
             names = {"NoDiagram:" + str(p["what"])}
+        elif kind == "EXTRA":
+            # beyond the listed properties: the Mermaid data-model diagram of the whole module
+            mm = mermaids.get(t, {})
+            core.add_extra(ctx, "mermaid-datamodel/" + "+".join(sorted(p["what"])),
+                           "%s; classes %s, links %s, unread lines %s %s; types %s fields %s" %
+                           (sorted(p["what"]), json.dumps([c[0] for c in mm.get("classes", [])])[:200], json.dumps(mm.get("edges"))[:200],
+                            json.dumps(mm.get("unknown"))[:200], mm.get("msg", ""), json.dumps(b.get("mtypes"))[:300], json.dumps(b.get("mfields"))[:500]))
+            continue
         else:
             continue
         if "FieldTypeDiffers" in names:
@@ -42,9 +51,9 @@ def check_c15(ctx):
             b.get("app"), sorted(names), json.dumps(b.get("mtypes")), json.dumps(b.get("mfields")),
             json.dumps(diags.get(t, {}).get("edges")), json.dumps(diags.get(t, {}).get("undeclared")))
         core.add_violation(ctx, sig, what[:1500], {"family": "datamodel", "scenario": by_id[t // 10], "app": b.get("app")})
-    graphs = {json.dumps([b["mtypes"], b["mfields"]]) for b in begins.values()}
+    graphs = {json.dumps([b["mtypes"], b["mfields"]]) for b in begins.values() if b.get("app") != "*"}
     cov = {"states": mc.distinct, "transitions": mc.generated, "traces_validated_against_impl": len(diags),
-           "programs": len(scn), "distinct_type_graphs": len(graphs),
+           "programs": len(scn), "distinct_type_graphs": len(graphs), "mermaid_data_diagrams_compared": len(mermaids),
            "reference_fields": sum(1 for b in begins.values() for f in b["mfields"] if f[2]),
            "samples": [list(begins.values())[0]] if begins else []}
     return core.finish(ctx, "model_checking", cov, [
